@@ -7,9 +7,10 @@ import DaskModel.Lemmas.BagShufflePerm
 import DaskModel.Lemmas.SubMultiset
 import DaskModel.Lemmas.BagFoldby
 import DaskModel.Lemmas.BagTopk
+import DaskModel.Lemmas.BagOps2
 /-! # C48 — bag operations equal their Python reference (theorems) -/
 namespace Dask.C48
-open Dask.BagReduce Dask.BagOps Dask.BagShuffle
+open Dask.BagReduce Dask.BagOps Dask.BagShuffle Dask.TextBlocks
 
 variable {α β : Type}
 
@@ -873,5 +874,370 @@ theorem topk_sorted_perm (k : Nat) (xs : List Int) :
   ⟨sortDesc_sorted xs, sortDesc_perm xs, rfl⟩
 
 example : topkB 2 2 [[3, 9], [], [7], [1, 8]] = some [9, 8] := by decide
+
+/-! # Review round: stronger groupby statements, the real cut points of `split`, `repartition(partition_size)`,
+`from_sequence`, `split_every=False`, mean / var -/
+
+/-- the keys of one output partition are distinct: a key is reported once -/
+theorem groupby_keys_nodup (hash : Nat → Nat) (g : α → Nat) (k stages : Nat) (parts : List (List α))
+    (t : Nat) (part : List (Nat × List α)) (hpart : (groupbyTasks hash g k stages parts)[t]? = some part) :
+    (part.map (·.1)).Nodup := by
+  simp only [groupbyTasks, List.getElem?_map] at hpart
+  cases hst : (shuffle k stages (parts.map fun p => p.map fun x => (hash (g x), x)))[t]? with
+  | none => simp [hst] at hpart
+  | some st =>
+    simp only [hst, Option.map_some, Option.some.injEq] at hpart
+    subst hpart
+    simp only [groupByKeyOrdered, List.map_map]
+    have : ((fun x : Nat × List α => x.1) ∘ fun k => (k, List.filter (fun x => g x == k) (List.map (fun x => x.2) st))) = id := by
+      funext k; rfl
+    rw [this, List.map_id]
+    exact nodup_eraseDups _
+
+/-- **`groupby_group_perm`** (task shuffle): the group reported for key `κ` holds EXACTLY the elements of the
+    bag with that key, with their multiplicities (as a multiset: a permutation of the filtered sequence). -/
+theorem groupby_group_perm (hash : Nat → Nat) (g : α → Nat) (k stages : Nat) (hk : 0 < k) (parts : List (List α))
+    (hlen : parts.length ≤ k ^ stages) (t : Nat) (part : List (Nat × List α)) (κ : Nat) (grp : List α)
+    (hpart : (groupbyTasks hash g k stages parts)[t]? = some part) (hmem : (κ, grp) ∈ part) :
+    grp.Perm (parts.flatten.filter fun x => g x == κ) := by
+  have ht := ((groupby_eq_python hash g k stages hk parts hlen).1 t part κ grp hpart hmem).1
+  simp only [groupbyTasks, List.getElem?_map] at hpart
+  generalize hS : shuffle k stages (parts.map fun p => p.map fun x => (hash (g x), x)) = S at hpart
+  cases hst : S[t]? with
+  | none => simp [hst] at hpart
+  | some st =>
+    simp only [hst, Option.map_some, Option.some.injEq] at hpart
+    subst hpart
+    obtain ⟨_, hgrp⟩ := (mem_groupByKeyOrdered g _ κ grp).mp hmem
+    -- the whole shuffle is a permutation
+    have hperm : S.flatten.Perm (parts.map fun p => p.map fun x => (hash (g x), x)).flatten := by
+      rw [← hS]; exact shuffle_multiset k stages hk _ (by simpa using hlen)
+    have hperm2 : ((S.flatten.map (·.2)).filter fun x => g x == κ).Perm (parts.flatten.filter fun x => g x == κ) := by
+      have h1 := (hperm.map (·.2)).filter (fun x => g x == κ)
+      have h2 : ((parts.map fun p => p.map fun x => (hash (g x), x)).flatten.map (·.2)) = parts.flatten := by
+        simp [List.map_flatten, List.map_map, Function.comp_def]
+      rw [h2] at h1
+      exact h1
+    -- only partition `t` contributes elements with key κ
+    have hflat : (S.flatten.map (·.2)).filter (fun x => g x == κ) = (st.map (·.2)).filter (fun x => g x == κ) := by
+      rw [List.map_flatten, List.filter_flatten]
+      have := flatten_eq_getD_of_others_nil
+        ((S.map (List.map (·.2))).map (List.filter fun x => g x == κ)) t ?_
+      · rw [this]
+        simp [List.getD_eq_getElem?_getD, List.getElem?_map, hst]
+      · intro t' hne
+        simp only [List.getD_eq_getElem?_getD, List.getElem?_map]
+        cases hst' : S[t']? with
+        | none => simp
+        | some st' =>
+          simp only [Option.map_some, Option.getD_some, List.filter_eq_nil_iff, List.mem_map]
+          rintro y ⟨e, he, rfl⟩ hy
+          have hget : (shuffle k stages (parts.map fun p => p.map fun x => (hash (g x), x))).getD t' [] = st' := by
+            rw [hS]; simp [List.getD_eq_getElem?_getD, hst']
+          have hinv := shuffle_hash_inv hash g k stages parts t' e (by rw [hget]; exact he)
+          have hroute := staged_route k stages hk _ t' e (by rw [hget]; exact he)
+          apply hne
+          rw [← hroute.2, hinv.1, ht]
+          have : g e.2 = κ := by simpa using hy
+          rw [this]
+    rw [hgrp, ← hflat]
+    exact hperm2
+
+/-- disk shuffle, completeness: every element's key is reported in partition `hash κ % npartitions` with the
+    group of ALL elements of that key (in order) -/
+theorem groupby_disk_complete (hash : Nat → Nat) (g : α → Nat) (nout : Nat) (hn : 0 < nout) (parts : List (List α))
+    (x : α) (hx : x ∈ parts.flatten) :
+    ∃ part, (groupbyDisk hash g nout parts)[hash (g x) % nout]? = some part ∧
+      (g x, parts.flatten.filter fun y => g y == g x) ∈ part := by
+  have hlt : hash (g x) % nout < nout := Nat.mod_lt _ hn
+  refine ⟨groupByKeyOrdered g (parts.flatten.filter fun y => hash (g y) % nout == hash (g x) % nout), ?_, ?_⟩
+  · simp only [groupbyDisk, List.getElem?_map, List.getElem?_range hlt, Option.map_some]
+  · rw [mem_groupByKeyOrdered]
+    refine ⟨⟨x, List.mem_filter.mpr ⟨hx, by simp⟩, rfl⟩, ?_⟩
+    rw [List.filter_filter]
+    apply List.filter_congr
+    intro y _
+    by_cases hy : g y = g x
+    · simp [hy]
+    · simp [hy]
+
+/-- **`split_den`**: `split(seq, n)` (n ≥ 1) returns `n` consecutive slices that concatenate to `seq` — with
+    the cut points exactly as CPython computes them (`int(len(seq) / n * i)` in binary64) -/
+theorem split_den (n : Nat) (hn : 0 < n) (seq : List α) :
+    (splitB n seq).flatten = seq ∧ (splitB n seq).length = n := by
+  obtain ⟨rest, hc, hpw⟩ := splitCuts_ok seq.length n hn
+  refine ⟨?_, by simp [splitB, splitWith_length, splitCuts_length]⟩
+  simp only [splitB, hc]
+  rw [splitWith_flatten 0 rest seq hpw]; rfl
+
+example : splitB 9 (List.range 12) = [[0], [1], [2, 3], [4], [5], [6, 7], [8], [9], [10, 11]] := by decide +kernel
+
+
+/-- **`repartition_more_ieee`**: `repartition(npartitions=m)` with `m` larger than the current number keeps the
+    sequence and yields exactly `m` partitions — with the REAL cut points (`splitCuts`: binary64 `int(len/k*i)`),
+    no hypothesis on them left. -/
+theorem repartition_more_ieee (m : Nat) (b : Bag α) (hb : 0 < b.length) (hlt : b.length < m) :
+    den (repartitionB (cutsOfBag b m) m b) = den b ∧ (repartitionB (cutsOfBag b m) m b).length = m := by
+  have hpos : ∀ i, 0 < (nsplitsMore b.length m).getD i 1 := by
+    intro i
+    simp only [List.getD_eq_getElem?_getD]
+    cases h : (nsplitsMore b.length m)[i]? with
+    | none => simp
+    | some v =>
+      have hv := List.mem_of_getElem? h
+      simp only [nsplitsMore, List.mem_append, List.mem_replicate, List.mem_singleton] at hv
+      have hdiv : 0 < m / b.length := Nat.div_pos (Nat.le_of_lt hlt) hb
+      simp only [Option.getD_some]
+      rcases hv with ⟨_, rfl⟩ | rfl <;> omega
+  apply repartition_more (cutsOfBag b m) m b hb hlt
+  · intro i
+    exact splitCuts_ok _ _ (hpos i)
+  · intro i hi
+    simp only [cutsOfBag, splitCuts_length, List.getD_eq_getElem?_getD, List.getElem?_eq_getElem hi, Option.getD_some]
+
+example : repartitionB (cutsOfBag [List.range 12] 9) 9 [List.range 12] =
+    [[0], [1], [2, 3], [4], [5], [6, 7], [8], [9], [10, 11]] := by decide +kernel
+
+/-! ## `repartition(partition_size=…)` -/
+
+
+/-- **`repartition_size_den`**: `repartition(partition_size=…)` keeps the sequence, for ANY memory usages
+    (they only enter through `nsplits ≥ 1` and the chunk lengths `iter_chunks` returns). -/
+theorem repartition_size_den (nsplits chunks : List Nat) (b : Bag α) (hb : b ≠ [])
+    (hn : nsplits.length = b.length) (hn1 : ∀ k ∈ nsplits, 0 < k)
+    (hpos : ∀ c ∈ chunks, 0 < c) (hsum : chunks.sum = nsplits.sum) :
+    den (repartitionSizeB nsplits chunks b) = den b ∧ (repartitionSizeB nsplits chunks b).length = chunks.length := by
+  have hsp := splitPieces_spec (fun i => splitCuts (b.getD i []).length (nsplits.getD i 1)) (b.zip nsplits) 0
+    (by
+      intro i
+      apply splitCuts_ok
+      simp only [List.getD_eq_getElem?_getD]
+      cases h : nsplits[i]? with
+      | none => simp
+      | some v => simpa using hn1 v (List.mem_of_getElem? h))
+    (by
+      intro i h
+      have hi : i < nsplits.length := by simp at h; omega
+      simp only [Nat.zero_add, splitCuts_length, List.getElem_zip, List.getD_eq_getElem?_getD,
+        List.getElem?_eq_getElem hi, Option.getD_some])
+  have hfst : (b.zip nsplits).map (·.1) = b := List.map_fst_zip (by omega)
+  have hsnd : (b.zip nsplits).map (·.2) = nsplits := List.map_snd_zip (by omega)
+  rw [hfst] at hsp
+  rw [hsnd] at hsp
+  simp only [repartitionSizeB, den]
+  have hlen : (splitPartitions (fun i => splitCuts (b.getD i []).length (nsplits.getD i 1)) nsplits b).length = nsplits.sum := hsp.2
+  have hne : splitPartitions (fun i => splitCuts (b.getD i []).length (nsplits.getD i 1)) nsplits b ≠ [] := by
+    intro h
+    rw [h] at hlen
+    cases b with
+    | nil => exact hb rfl
+    | cons p ps =>
+      cases nsplits with
+      | nil => simp at hn
+      | cons k ks =>
+        have := hn1 k (by simp)
+        simp at hlen; omega
+  obtain ⟨f1, f2⟩ := fromRunningSums _ chunks hpos (by rw [hsum, hlen])
+  exact ⟨by rw [f1]; exact hsp.1, f2 hne⟩
+
+example : repartitionSizeB [2, 1, 3] [1, 2, 3] [[1, 2, 3], [4], [5, 6, 7, 8]] = [[1], [2, 3, 4], [5, 6, 7, 8]] := by
+  decide +kernel
+
+
+
+/-! ## `from_sequence` -/
+
+/-- **`from_sequence_spec`**: whenever `from_sequence` returns a bag, its partitions concatenate to the
+    sequence, every partition but the last has exactly the chosen size, the last one between 1 and the size
+    (an empty sequence gives one empty partition) -/
+theorem from_sequence_spec (seq : List α) (ps np : Option Nat) (r : Bag α) (h : fromSequenceB seq ps np = some r) :
+    den r = seq ∧ r ≠ [] ∧
+    (seq ≠ [] → ∃ size, fromSequenceSize seq.length ps np = some size ∧ 0 < size ∧
+      (∀ p ∈ r, 0 < p.length ∧ p.length ≤ size) ∧ ∀ p ∈ r.dropLast, p.length = size) := by
+  simp only [fromSequenceB] at h
+  cases hs : fromSequenceSize seq.length ps np with
+  | none => simp [hs] at h
+  | some size =>
+    simp only [hs] at h
+    cases seq with
+    | nil =>
+      simp only [List.isEmpty_nil, if_true, Option.some.injEq] at h
+      subst h; simp [den]
+    | cons x xs =>
+      simp only [List.isEmpty_cons, Bool.false_eq_true, if_false] at h
+      split at h
+      · cases h
+      · next hz =>
+        simp only [Option.some.injEq] at h
+        subst h
+        have hpos : 0 < size := by omega
+        refine ⟨partitionAll_flatten size hpos _, ?_, fun _ => ⟨size, rfl, hpos, ?_⟩⟩
+        · intro hnil
+          have := partitionAll_flatten size hpos (x :: xs)
+          rw [hnil] at this; cases this
+        · exact partitionAllF_sizes size hpos _ _ (Nat.le_refl _)
+
+/-- number of partitions: `⌈len / size⌉` -/
+theorem from_sequence_count (seq : List α) (size : Nat) (hs : 0 < size) :
+    (partitionAll size seq).length = (seq.length + size - 1) / size := by
+  have h1 := partitionAllF_length size hs seq.length seq (Nat.le_refl _)
+  have h2 : (partitionAll size seq).flatten.length = seq.length := by rw [partitionAll_flatten size hs]
+  have h3 : (partitionAll size seq).flatten.length ≤ (partitionAll size seq).length * size := by
+    have := (partitionAllF_sizes size hs seq.length seq (Nat.le_refl _)).1
+    simp only [partitionAll]
+    generalize partitionAllF size seq.length seq = L at this
+    induction L with
+    | nil => simp
+    | cons p ps ih =>
+      simp only [List.flatten_cons, List.length_append, List.length_cons, Nat.add_mul, Nat.one_mul]
+      have h := (this p (by simp)).2
+      have := ih (fun q hq => this q (List.mem_cons_of_mem _ hq))
+      omega
+  simp only [partitionAll] at h1 h2 h3 ⊢
+  rw [h2] at h3
+  generalize (partitionAllF size seq.length seq).length = c at h1 h3
+  apply Nat.le_antisymm
+  · rw [Nat.le_div_iff_mul_le hs]; omega
+  · have : (seq.length + size - 1) / size < c + 1 := by
+      rw [Nat.div_lt_iff_lt_mul hs]
+      rw [Nat.add_mul]; omega
+    omega
+
+/-- `from_sequence(seq, npartitions=k)` with at most 100 elements never produces more than `k` partitions -/
+theorem from_sequence_npartitions_le (seq : List α) (k : Nat) (hk : 0 < k) (hn : seq.length ≤ 100) (r : Bag α)
+    (h : fromSequenceB seq none (some k) = some r) (hne : seq ≠ []) : r.length ≤ k := by
+  obtain ⟨k', rfl⟩ : ∃ k', k = k' + 1 := ⟨k - 1, by omega⟩
+  simp only [fromSequenceB, fromSequenceSize, hn, if_true] at h
+  cases seq with
+  | nil => exact absurd rfl hne
+  | cons x xs =>
+    simp only [List.isEmpty_cons, Bool.false_eq_true, if_false] at h
+    split at h
+    · cases h
+    · next hz =>
+      simp only [Option.some.injEq] at h
+      subst h
+      generalize hsz : ((x :: xs).length + k') / (k' + 1) = size at hz
+      have hpos : 0 < size := by omega
+      rw [from_sequence_count _ size hpos]
+      have hge : (x :: xs).length ≤ size * (k' + 1) := by
+        have := Nat.lt_div_mul_add (a := (x :: xs).length + k') (b := k' + 1) (by omega)
+        rw [hsz] at this
+        omega
+      rw [Nat.div_le_iff_le_mul_add_pred hpos]
+      omega
+
+example : fromSequenceB (List.range 7) none (some 3) = some [[0, 1, 2], [3, 4, 5], [6]] := by decide
+example : fromSequenceB ([] : List Nat) none (some 3) = some [[]] := by decide
+example : fromSequenceSize 399 none none = some 2 := by decide +kernel
+
+
+
+/-! ## `split_every=False` and the summary statistics -/
+
+/-- `bag_reduction_eq` under exactly the guard the code has: `split_every ≥ 2`, or no fewer than the number
+    of partitions (`split_every=False` is `split_every = npartitions`: one aggregate over all partitions) -/
+theorem bag_reduction_eq_guard (h : List α → β) (agg : List β → β)
+    (hom : ∀ qs : List (List α), agg (qs.map h) = h qs.flatten)
+    (se : Nat) (b : Bag α) (hse : ¬ (se < 2 ∧ se < b.length)) : reduction h agg se b = some (h (den b)) := by
+  have hsome := (reductionIx_isSome_iff (fun _ => h) (fun _ _ => agg) se b).mpr hse
+  obtain ⟨r, hr⟩ := Option.isSome_iff_exists.mp hsome
+  have := reductionIx_inv (fun q r => r = h q) (fun _ => h) (fun _ _ => agg) (fun _ _ => rfl)
+    (by
+      intro d i qs rs hall
+      have : rs = qs.map h := by
+        induction hall with
+        | nil => rfl
+        | cons hab _ ih => simp [hab, ih]
+      rw [this]; exact hom qs) se b r hr
+  simp only [reduction, hr, this, den]
+
+
+/-- **`bag_mean_eq`**: the `(total, count)` that `Bag.mean` divides is `(sum(seq), len(seq))` — for every
+    partitioning; an empty bag raises -/
+theorem bag_mean_eq (b : Bag Int) :
+    meanB b = some (if (den b).length = 0 then none else some (sumInt (den b), (den b).length)) := by
+  have := bag_reduction_eq_guard (fun p : List Int => (sumInt p, p.length))
+    (fun rs => (sumInt (rs.map (·.1)), sumNat (rs.map (·.2)))) (by
+      intro qs
+      induction qs with
+      | nil => rfl
+      | cons q qs ih =>
+        simp only [List.map_cons, List.flatten_cons, sumInt_cons, sumNat_cons, sumInt_append, List.length_append] at ih ⊢
+        simp only [Prod.mk.injEq] at ih
+        rw [ih.1, ih.2]) b.length b (by omega)
+  simp only [meanB, this, Option.map_some]
+
+/-- **`bag_var_eq`**: the `(x2, x, n)` that `Bag.var(ddof)` feeds into `(x2/n - (x/n)²)·n/(n-ddof)` is
+    `(Σ x², Σ x, len)` of the sequence — for every partitioning; raises iff `n = 0` or `n = ddof` -/
+theorem bag_var_eq (ddof : Nat) (b : Bag Int) :
+    varB ddof b = some (if (den b).length = 0 ∨ (den b).length = ddof then none
+      else some (sumInt ((den b).map fun x => x * x), sumInt (den b), (den b).length)) := by
+  have := bag_reduction_eq_guard (fun p : List Int => (sumInt (p.map fun x => x * x), sumInt p, p.length))
+    (fun rs => (sumInt (rs.map (·.1)), sumInt (rs.map (·.2.1)), sumNat (rs.map (·.2.2)))) (by
+      intro qs
+      induction qs with
+      | nil => rfl
+      | cons q qs ih =>
+        simp only [List.map_cons, List.flatten_cons, sumInt_cons, sumNat_cons, sumInt_append, List.length_append,
+          List.map_append] at ih ⊢
+        simp only [Prod.mk.injEq] at ih
+        rw [ih.1, ih.2.1, ih.2.2]) b.length b (by omega)
+  simp only [varB, this, Option.map_some]
+
+example : meanB [[1, 2], [], [6]] = some (some (9, 3)) := by decide
+example : meanB [[], []] = some none := by decide
+example : varB 1 [[1, 2], [], [6]] = some (some (41, 9, 3)) := by decide
+example : varB 1 [[5]] = some none := by decide
+
+
+/-! ## non-vacuity: every hypothesis used above is satisfied by concrete, non-trivial inputs -/
+
+/-- `(+, +, 0)` on `Int` is a homomorphism (the hypothesis of `bag_fold_eq` / `foldby_eq`) -/
+theorem add_hom (q₁ q₂ : List Int) :
+    (q₁ ++ q₂).foldl (· + ·) 0 = (q₁.foldl (· + ·) 0) + (q₂.foldl (· + ·) 0) :=
+  fold_hom_of_monoid (· + ·) (0 : Int) id Int.add_assoc Int.zero_add Int.add_zero q₁ q₂
+
+example : foldB (· + ·) (· + ·) (0 : Int) 3 [[1, 2], [], [3], [4, 5], [], [6]] = some 21 :=
+  bag_fold_eq _ _ _ add_hom 3 (by decide) _
+example : reduction (topk 2) (fun rs => topk 2 rs.flatten) 2 [[3, 9], [], [7], [1, 8]] = some [9, 8] :=
+  bag_reduction_eq (topk 2) _ (topk_hom 2) 2 (by decide) _
+example : reduction (topk 2) (fun rs => topk 2 rs.flatten) 2 [[3, 9], [], [7], [1, 8]] =
+    reduction (topk 2) (fun rs => topk 2 rs.flatten) 5 [[3, 9], [], [7], [1, 8]] :=
+  split_every_irrelevant (topk 2) _ (topk_hom 2) 2 5 (by decide) (by decide) _
+example : den (mapPartitionsB (List.map (· + 1)) [[1, 2], [], [3]]) = [2, 3, 4] :=
+  bag_map_partitions_den (List.map (· + (1 : Nat))) (fun qs => by simp [List.map_flatten]) _
+example : den (accumulateB (· + ·) none [[], [(1 : Int), 2], [], [3]]) = pyAccumulate (· + ·) none [1, 2, 3] :=
+  accumulate_eq_itertools (· + ·) none [[], [(1 : Int), 2], [], [3]] (by decide)
+example : takeB 3 (some 2) [[1], [2, 3, 4], [5]] = some [1, 2, 3] := take_first_partitions 3 2 [[1], [2, 3, 4], [5]] (by decide)
+example : takeB 3 (some 4) [[1], [2, 3, 4], [5]] = none := take_too_many 3 4 [[1], [2, 3, 4], [5]] (by decide)
+example : (repartitionB (fun _ => []) 2 [[1], [2], [3], [4], [5]]).length = 2 :=
+  (repartition_fewer (fun _ => []) 2 (by decide) [[1], [2], [3], [4], [5]] (by decide)).2
+example : ∃ z, zipB [[1, 2], [3]] [[7, 8], [9]] = some z ∧ den z = [(1, 7), (2, 8), (3, 9)] :=
+  bag_zip_den [[1, 2], [3]] [[7, 8], [9]] rfl (by decide)
+example : (3, 'c') ∈ (shuffle 2 2 [[(5, 'a'), (2, 'b')], [(3, 'c')], [(6, 'd'), (1, 'e')]]).getD (3 % 2 ^ 2) [] :=
+  shuffle_complete 2 2 (by decide) [[(5, 'a'), (2, 'b')], [(3, 'c')], [(6, 'd'), (1, 'e')]] (by decide) 1 (by decide)
+    (3, 'c') (by decide)
+example : (shuffle 2 2 [[(5, 'a'), (2, 'b')], [(3, 'c')], [(6, 'd'), (1, 'e')]]).flatten.Perm
+    [(5, 'a'), (2, 'b'), (3, 'c'), (6, 'd'), (1, 'e')] :=
+  shuffle_multiset 2 2 (by decide) _ (by decide)
+-- three partitions, k = 2, two stages (k^stages = 4 ≥ 3: one padding partition); keys x % 3, hash = key + 5
+example : groupbyTasks (· + 5) (· % 3) 2 2 [[1, 2, 4], [3, 5], [7]] = [[], [(0, [3])], [(1, [1, 4, 7])], [(2, [2, 5])]] := by
+  decide
+example : [1, 4, 7].Perm ([[1, 2, 4], [3, 5], [7]].flatten.filter fun x => x % 3 == 1) :=
+  groupby_group_perm (· + 5) (· % 3) 2 2 (by decide) [[1, 2, 4], [3, 5], [7]] (by decide) 2 [(1, [1, 4, 7])] 1 [1, 4, 7]
+    (by decide) (by decide)
+example : foldNoInitB max max 2 [[], [3, -1], [], [7], [2]] = some (some 7) :=
+  bag_fold_noinit_eq max (by intro a b c; omega) 2 (by decide) [[], [(3 : Int), -1], [], [7], [2]] (by decide)
+example : ∃ r, foldbyB (fun x : Int => (x % 3).toNat) (· + ·) 0 (· + ·) 0 2 [[1, 2, 4], [], [3, 5], [7]] = some r ∧
+    (r.map (·.1)).Nodup ∧ ∀ κ, r.lookup κ = foldbySpec (fun x : Int => (x % 3).toNat) (· + ·) 0 [1, 2, 4, 3, 5, 7] κ :=
+  foldby_eq _ _ 0 _ 0 Int.zero_add add_hom 2 (by decide) [[1, 2, 4], [], [3, 5], [7]]
+example : ∃ part, (groupbyDisk (· + 5) (· % 3) 2 [[1, 2, 4], [3, 5], [7]])[(1 + 5) % 2]? = some part ∧
+    (1, [1, 4, 7]) ∈ part :=
+  groupby_disk_complete (· + 5) (· % 3) 2 (by decide) [[1, 2, 4], [3, 5], [7]] 1 (by decide)
+example : den (repartitionSizeB [2, 1, 3] [1, 2, 3] [[1, 2, 3], [4], [5, 6, 7, 8]]) = [1, 2, 3, 4, 5, 6, 7, 8] :=
+  (repartition_size_den [2, 1, 3] [1, 2, 3] [[1, 2, 3], [4], [5, 6, 7, 8]] (by decide) rfl (by decide) (by decide) rfl).1
+example : (repartitionB (cutsOfBag [List.range 12, [20, 21]] 11) 11 [List.range 12, [20, 21]]).length = 11 :=
+  (repartition_more_ieee 11 [List.range 12, [20, 21]] (by decide) (by decide)).2
 
 end Dask.C48
